@@ -175,6 +175,22 @@ CLAIMED = {
          "blocks) is argued in DESIGN.md and checked by correspondence of the executable stream models, not proved; ranks "
          "tabulated by the harness; only properties with order-free strategies are compared.",
     technique="Coq proof (permutation/duplication/batching laws) + exhaustive small-scope correspondence on the implementation", ref='5 C05'),
+ 'C15': dict(
+    text="Theorems on a model of the parser's control skeleton (order of the stages per root child, which failure becomes which "
+         "exception, when callbacks run; the stages are represented by their results): with validation enabled, for every sequence of "
+         "children and whatever the stages report, every invoked callback received an item the gate accepts - also in runs ending in an "
+         "error; every error leaving the skeleton is from the EDXML family provided the stages raise nothing else; a run without error "
+         "delivered everything in document order; the pinned skeleton (KeyError for a missing event-type, ValueError for version x.0.0, "
+         "schema-invalid ontology element reaching the callback) is refuted. T1: the table of raw attribute accesses and int() "
+         "conversions on the parsing path with their enclosing try blocks is regenerated from the source ast and checked by reflection. "
+         "T2: for thousands of mutated documents the stage results are computed with the real components outside the parser and the "
+         "model's callbacks / outcome compared with the real pull parser. Oracle: fault injection (truncation at every prefix offset, bit "
+         "flips, splices, inserted markup, every attribute deleted / retyped / renamed / duplicated, unknown attributes, every element "
+         "deleted / duplicated / emptied / moved, undefined references; 1-3 faults) through pull and push parser at random chunkings "
+         "with a watchdog; delivered items re-validated.",
+    note=TB + "that the stages themselves raise only EDXML errors is established by fault injection and the leak-site table, not by proof; "
+         "hangs are detected by a wall-clock watchdog; documents with visited tags outside the root are outside the skeleton model.",
+    technique="Coq proof on a parser skeleton model + reflected leak-site table regenerated from source + stage-level correspondence + fault-injection oracle", ref='5 C15'),
  'C18': dict(
     text="Theorems over the collection-equivalence model: the verdict is true exactly when ontologies are equal and both "
          "collections have the same hashes with equal merged events (spec), symmetry, reflexivity, equivalence with the "
